@@ -125,6 +125,11 @@ class Body:
                 ns = [t["target"]]
             elif k == "switch":
                 ns = [b for _, b in t["targets"]] + [t["otherwise"]]
+                # an edge into an empty `unreachable` block is infeasible by construction (rustc emits it for the impossible
+                # arm of an exhaustive match): it is not a path, so nothing becomes control dependent through it
+                feas = [b for b in ns if not (self.blocks[b]["term"]["k"] == "unreachable" and not self.blocks[b]["stmts"])]
+                if feas:
+                    ns = feas
             elif k in ("call", "drop", "assert"):
                 if t.get("target") is not None:
                     ns = [t["target"]]
